@@ -1,7 +1,8 @@
-(* Driver: for each case i in [dir] compare the extracted model's file with the implementation's
-   file and evaluate the specification oracle on the implementation's file.
+(* Driver of the extracted model (avmodel.ml): one sub-command per interface.
+   hex <dir> <n>: for each case i in [dir] compare the extracted model's file with the
+   implementation's file and evaluate the specification oracle on the implementation's file.
    Output: one line per case  "<i> <corr:ok|MISMATCH|noimpl> <spec:ok|FAIL|noimpl> <len>" *)
-open Hexmodel
+open Avmodel
 
 let rec pos_of_int n = if n = 1 then XH else if n land 1 = 1 then XI (pos_of_int (n lsr 1)) else XO (pos_of_int (n lsr 1))
 let n_of_int n = if n = 0 then N0 else Npos (pos_of_int n)
@@ -23,9 +24,9 @@ let rec eq_list a b = match a, b with
   | x :: a', y :: b' -> int_of_n x = int_of_n y && eq_list a' b'
   | _, _ -> false
 
-let () =
-  let dir = Sys.argv.(1) in
-  let n = int_of_string Sys.argv.(2) in
+let cmd_hex () =
+  let dir = Sys.argv.(2) in
+  let n = int_of_string Sys.argv.(3) in
   for i = 0 to n - 1 do
     let img = list_of_string (read_file (Filename.concat dir (string_of_int i ^ ".bin"))) in
     let hexp = Filename.concat dir (string_of_int i ^ ".hex") in
@@ -38,3 +39,9 @@ let () =
     end else
       Printf.printf "%d noimpl noimpl %d\n%!" i (List.length img)
   done
+
+
+let () =
+  match Sys.argv.(1) with
+  | "hex" -> cmd_hex ()
+  | c -> prerr_endline ("unknown command " ^ c); exit 2
